@@ -693,6 +693,18 @@ def main(run_fn, pid, argv, level="model_checking"):
     ap.add_argument("--seed", type=int, default=None)
     a = ap.parse_args(argv)
     seed = a.seed if a.seed is not None else int(os.environ.get("VERIF_SEED", "1") or 1)
+    if a.replay:
+        # a replay file records the seed and tier of the run that found it; the
+        # generators are seeded, so re-running that (tier, seed) re-runs the case
+        try:
+            with open(a.replay) as f:
+                rp = json.load(f)
+            seed, a.tier = int(rp.get("seed", seed)), rp.get("tier", a.tier)
+            print("replaying %s: property=%s seed=%d tier=%s\n  what: %s" % (
+                a.replay, rp.get("property"), seed, a.tier, rp.get("what")), flush=True)
+        except Exception as ex:
+            print("MACHINERY-FAULT property=%s: cannot read replay file: %s" % (pid, ex))
+            return 2
     if a.tier not in ("quick", "thorough"):
         a.tier = "quick"
     ctx = Ctx(pid, a.tier, seed, level)
